@@ -933,11 +933,13 @@ func checkC17(w *World) {
 		w.undecided(P, "R17.2", "attribute builder / prefix stripping", pull.Pos(), fmt.Sprintf("attribute builder found: %v; stripping helper called on the element name: %v", attrBuilder != nil, strip != nil))
 	} else {
 		same := false
-		allInstrs(attrBuilder, func(in ssa.Instruction) {
-			if c, ok := in.(*ssa.Call); ok && staticCallee(c) == strip {
-				same = true
-			}
-		})
+		for g := range staticReach(attrBuilder, func(x *ssa.Function) bool { return fnPkgKey(x) == "parser" }) {
+			allInstrs(g, func(in ssa.Instruction) {
+				if c, ok := in.(*ssa.Call); ok && staticCallee(c) == strip {
+					same = true
+				}
+			})
+		}
 		w.check(P, "R17.2", "element and attribute names use the same prefix-stripping helper", attrBuilder.Pos(), same, fmt.Sprintf("%s is applied to attribute names too: %v", strip.Name(), same))
 		// skip conditions
 		skipEq, skipPrefix := false, false
